@@ -943,12 +943,17 @@ def setup():
     return 0
 
 
+DICT = {"tokens": [], "ints": []}     # source literals the baseline tree did not have (checklib/srcdict.py), set per run
+
+
 def extra_stream(name, tier, seed):
     """streams produced by the checker itself"""
+    dwords = list(DICT["tokens"])
     if name == "langmisc":
         lines = ["langdefault", "langopt ~"]
-        for w in ["en", "UND", "und", "e", "", "abcd", "EN", "abcde", "root"]:
-            lines.append("langopt " + R.hexs(w.encode()))
+        for w in [b"en", b"UND", b"und", b"e", b"", b"abcd", b"EN", b"abcde", b"root"] + dwords:
+            w = w.decode("latin-1")
+            lines.append("langopt " + R.hexs(w.encode("latin-1")))
         return lines
     if name == "layoutnames":
         names, _ = layout_data()
@@ -963,7 +968,7 @@ def extra_stream(name, tier, seed):
         # the iterator-level entry points on arbitrary subtag lists (also the empty list and subtags containing separators)
         import itertools
         alpha = [b"", b"en", b"EN", b"und", b"Latn", b"US", b"419", b"macos", b"1996", b"u", b"x", b"a-b", b"en_US", b"abcd",
-                 b"abcdefghi", b"e"]
+                 b"abcdefghi", b"e"] + dwords[:4]
         lines = []
         for n in range(0, 4):
             for toks in itertools.product(alpha, repeat=n):
@@ -976,7 +981,7 @@ def extra_stream(name, tier, seed):
         lines = ["errdisp"] + ["exttype %d" % i for i in range(256)]
         words = [b"en", b"EN", b"und", b"Und", b"fil", b"abcde", b"abcdefgh", b"abcd", b"e", b"", b"Latn", b"lATN", b"latn1", b"US",
                  b"us", b"419", b"41", b"4190", b"macos", b"MacOS", b"1996", b"1abc", b"abcdefghi", b"a.cde", b"valencia",
-                 b"\xc3\xa9cole", b"12345678"]
+                 b"\xc3\xa9cole", b"12345678"] + dwords
         for kind in ("lang", "script", "region"):
             for w in words:
                 lines.append("rawref %s %s" % (kind, R.hexs(w)))
@@ -1012,6 +1017,12 @@ def corpus_lines(pid):
 def gen_requests(harness, cfg, tier, seed, workdir):
     """writes the corpus and every stream of the property into request files; returns [(name, path)]"""
     files = []
+    import srcdict
+    dict_path = os.path.join(workdir, "dict.txt")
+    toks, ints = srcdict.write_dict_file(R.REPO, dict_path)
+    DICT["tokens"], DICT["ints"] = toks, ints
+    if toks or ints:
+        log("  source literals the baseline tree did not have (fed to the generators): %s %s" % ([repr(t)[1:] for t in toks], ints))
     cl = corpus_lines(cfg.pid)
     if cl:
         p = os.path.join(workdir, "req_corpus.txt")
@@ -1023,7 +1034,7 @@ def gen_requests(harness, cfg, tier, seed, workdir):
             lines = extra_stream(stream, tier, seed)
             open(p, "w").write("\n".join(lines) + "\n")
         except KeyError:
-            env = dict(os.environ)
+            env = dict(os.environ, GEN_DICT=dict_path)
             env.update(cfg.gen_env)
             if ops:
                 env["GEN_OPS"] = ops
@@ -1364,6 +1375,8 @@ def check(pid, tier, seed):
             "known_findings_printed": len(seen_known),
             "known_finding_hits": known_hits,
             "cfg_feature_extent": cfg_extent,
+            "source_literal_dictionary": {"tokens": [repr(t)[1:] for t in DICT["tokens"]], "integers": DICT["ints"],
+                                          "rule": "literals of /repo's sources that the baseline tree did not have are added to every generator alphabet"},
             "exhaustive": False,
         },
         "assumptions": [cfg.note] if cfg.note else [],
